@@ -252,7 +252,12 @@ other("C17", "dataset side: check_dataset is proved, once per STRUCTURE of the d
                "mixing strings and numbers is outside the model)",
                "assumed: rasterio_open(path).count / .width / .height / .read(band) are pure functions of the path",
                "the structure cases are a finite enumeration: a dataset shape outside them is covered by the bounded stand-in only"])
-other("C19", "no contract within reach decides this property (command-line entry point, rasterio file output, JSON round trip); ")
+other("C19", "trace contracts (orchestration mode: file and raster operations uninterpreted) on the two writers of pandora/common.py: "
+      "save_results hands every product of a dataset to write_data_array under the file of that name, with THAT dataset's crs / "
+      "transform, the validity masks as uint16, the confidence bands under their indicator names, the right products exactly when "
+      "the right dataset is not empty (62 obligations over the 6 paths); save_config serialises the configuration it is given, as "
+      "it is (no key sorting: the pipeline is an ordered mapping), into cfg/config.json.  What the rasters then contain "
+      "(write_data_array, rasterio), the JSON round trip and the replay of the saved configuration through the command line:")
 other("C20", "margin tables of every step class decided exhaustively (@tables), Margins descriptors and the margins getters of "
       "the matching-cost / filter classes proved (value contracts), glue contracts on the <step>_check_conf callbacks (each step "
       "records its margins exactly once under its own name); the global margins of whole pipelines:")
